@@ -31,20 +31,24 @@ import KotoVerif.Model.Compile
 
 namespace KotoVerif.Compile
 
-/-- statements: expression statements, blocks, `if` with statement branches, the three
-condition/unconditional loops and loop control. (`ifS c t (some e)` / `ifS c t none` of the plan are
-the two constructors `ite` / `ifThen`, as in `Expr`; see `Stmt.ifS`.) -/
+/-- statements: expression statements, blocks, `if` with statement branches, loops and loop
+control. As in `compile_node`, `while` / `until` / `loop` are one form, `loop cond body`, with
+`cond = some (c, negate)` (`Node::While` ↦ `compile_loop(Some((c, false)), …)`, `Node::Until` ↦
+`Some((c, true))`, `Node::Loop` ↦ `None`); see `Stmt.whileS` / `untilS` / `loopS`. `ifS c t (some e)`
+/ `ifS c t none` are the two constructors `ite` / `ifThen`, as in `Expr`; see `Stmt.ifS`. -/
 inductive Stmt where
   | expr (e : Expr)
   | seq (a b : Stmt)
   | ite (c : Expr) (t e : Stmt)
   | ifThen (c : Expr) (t : Stmt)
-  | whileS (c : Expr) (body : Stmt)
-  | untilS (c : Expr) (body : Stmt)
-  | loopS (body : Stmt)
+  | loop (cond : Option (Expr × Bool)) (body : Stmt)
   | brk
   | cont
   deriving Repr, Inhabited
+
+@[match_pattern] abbrev Stmt.whileS (c : Expr) (body : Stmt) : Stmt := .loop (some (c, false)) body
+@[match_pattern] abbrev Stmt.untilS (c : Expr) (body : Stmt) : Stmt := .loop (some (c, true)) body
+@[match_pattern] abbrev Stmt.loopS (body : Stmt) : Stmt := .loop none body
 
 def Stmt.ifS (c : Expr) (t : Stmt) (e : Option Stmt) : Stmt :=
   match e with
@@ -62,7 +66,32 @@ inductive Res (α : Type) where
   | nofuel
   deriving Repr, Inhabited
 
+/-- sequencing: go on with `k` after normal completion; `brk` / `cont`, errors and fuel exhaustion
+are passed on -/
+def Res.andThen {α : Type} (r : Res (Sig × α)) (k : α → Res (Sig × α)) : Res (Sig × α) :=
+  match r with
+  | .ok (.normal, a) => k a
+  | r => r
+
+/-- after one run of a loop body: `brk` ends the loop (normally), normal completion and `cont` go
+on with the next iteration `k`; errors and fuel exhaustion are passed on -/
+def Res.loopNext {α : Type} (r : Res (Sig × α)) (k : α → Res (Sig × α)) : Res (Sig × α) :=
+  match r with
+  | .ok (.brk, a) => .ok (.normal, a)
+  | .ok (_, a) => k a
+  | r => r
+
 variable (S : Sem)
+
+/-- the loop header: does the body run (`while`: the condition holds, `until`: it does not,
+`loop`: always), and the environment after evaluating the condition; `none` = runtime error -/
+def evalCond (cond : Option (Expr × Bool)) (ρ : Env S) : Option (Bool × Env S) :=
+  match cond with
+  | none => some (true, ρ)
+  | some (c, neg) =>
+    match eval S c ρ with
+    | some (v, ρ1) => some (S.truthy v != neg, ρ1)
+    | none => none
 
 /-- `evalS n s ρ`: every recursive call consumes one unit of fuel (so each loop iteration does);
 expressions are evaluated by the core's `eval` (`none` ⇒ `err`). `brk` / `cont` travel to the
@@ -75,10 +104,7 @@ def evalS : Nat → Stmt → Env S → Res (Sig × Env S)
       match eval S e ρ with
       | some (_, ρ1) => .ok (.normal, ρ1)
       | none => .err
-    | .seq a b =>
-      match evalS n a ρ with
-      | .ok (.normal, ρ1) => evalS n b ρ1
-      | r => r
+    | .seq a b => (evalS n a ρ).andThen (evalS n b)
     | .ite c t e =>
       match eval S c ρ with
       | some (v, ρ1) => if S.truthy v then evalS n t ρ1 else evalS n e ρ1
@@ -87,31 +113,11 @@ def evalS : Nat → Stmt → Env S → Res (Sig × Env S)
       match eval S c ρ with
       | some (v, ρ1) => if S.truthy v then evalS n t ρ1 else .ok (.normal, ρ1)
       | none => .err
-    | .whileS c b =>
-      match eval S c ρ with
-      | some (v, ρ1) =>
-        if S.truthy v then
-          match evalS n b ρ1 with
-          | .ok (.brk, ρ2) => .ok (.normal, ρ2)
-          | .ok (_, ρ2) => evalS n (.whileS c b) ρ2
-          | r => r
-        else .ok (.normal, ρ1)
+    | .loop cond b =>
+      match evalCond S cond ρ with
+      | some (true, ρ1) => (evalS n b ρ1).loopNext (evalS n (.loop cond b))
+      | some (false, ρ1) => .ok (.normal, ρ1)
       | none => .err
-    | .untilS c b =>
-      match eval S c ρ with
-      | some (v, ρ1) =>
-        if S.truthy v then .ok (.normal, ρ1)
-        else
-          match evalS n b ρ1 with
-          | .ok (.brk, ρ2) => .ok (.normal, ρ2)
-          | .ok (_, ρ2) => evalS n (.untilS c b) ρ2
-          | r => r
-      | none => .err
-    | .loopS b =>
-      match evalS n b ρ with
-      | .ok (.brk, ρ2) => .ok (.normal, ρ2)
-      | .ok (_, ρ2) => evalS n (.loopS b) ρ2
-      | r => r
     | .brk => .ok (.brk, ρ)
     | .cont => .ok (.cont, ρ)
 
@@ -130,8 +136,14 @@ inductive LCode where
   | cont
   deriving Repr, Inhabited
 
-/-- does the loop condition (already evaluated into `r`) let the body run? -/
-def condGo (neg : Bool) (σ : Regs S) (r : Reg) : Bool := S.truthy (σ r) != neg
+/-- the loop header of the target: run the condition code and test its register -/
+def execCond (cond : Option (Code × Reg × Bool)) (σ : Regs S) : Option (Bool × Regs S) :=
+  match cond with
+  | none => some (true, σ)
+  | some (cc, r, neg) =>
+    match exec S cc σ with
+    | some σ1 => some (S.truthy (σ1 r) != neg, σ1)
+    | none => none
 
 def execL : Nat → LCode → Regs S → Res (Sig × Regs S)
   | 0, _, _ => .nofuel
@@ -141,31 +153,16 @@ def execL : Nat → LCode → Regs S → Res (Sig × Regs S)
       match exec S c σ with
       | some σ1 => .ok (.normal, σ1)
       | none => .err
-    | .seq a b =>
-      match execL n a σ with
-      | .ok (.normal, σ1) => execL n b σ1
-      | r => r
+    | .seq a b => (execL n a σ).andThen (execL n b)
     | .ifElse r t withJump e =>
       if S.truthy (σ r) then
-        match execL n t σ with
-        | .ok (.normal, σ1) => if withJump then .ok (.normal, σ1) else execL n e σ1
-        | r => r
+        (execL n t σ).andThen (fun σ1 => if withJump then .ok (.normal, σ1) else execL n e σ1)
       else execL n e σ
-    | .loop (some (cc, r, neg)) body =>
-      match exec S cc σ with
-      | some σ1 =>
-        if condGo S neg σ1 r then
-          match execL n body σ1 with
-          | .ok (.brk, σ2) => .ok (.normal, σ2)
-          | .ok (_, σ2) => execL n (.loop (some (cc, r, neg)) body) σ2
-          | r => r
-        else .ok (.normal, σ1)
+    | .loop cond body =>
+      match execCond S cond σ with
+      | some (true, σ1) => (execL n body σ1).loopNext (execL n (.loop cond body))
+      | some (false, σ1) => .ok (.normal, σ1)
       | none => .err
-    | .loop none body =>
-      match execL n body σ with
-      | .ok (.brk, σ2) => .ok (.normal, σ2)
-      | .ok (_, σ2) => execL n (.loop none body) σ2
-      | r => r
     | .brk => .ok (.brk, σ)
     | .cont => .ok (.cont, σ)
 
@@ -178,6 +175,14 @@ def compileCond (c : Expr) (F : Frame) : Option (Code × Reg × Frame) := do
   let rc ← oc.reg
   let F2 ← popIf oc.temp F1
   pure (cc, rc, F2)
+
+/-- the loop header: nothing for `loop`; the condition and its exit jump for `while` / `until` -/
+def compileHdr (cond : Option (Expr × Bool)) (F : Frame) : Option (Option (Code × Reg × Bool) × Frame) :=
+  match cond with
+  | none => some (none, F)
+  | some (c, neg) => do
+    let (cc, rc, F1) ← compileCond c F
+    pure (some (cc, rc, neg), F1)
 
 def compileS : Stmt → Bool → Frame → Option (LCode × Frame)
   | .expr e, _, F => do
@@ -199,17 +204,11 @@ def compileS : Stmt → Bool → Frame → Option (LCode × Frame)
     let (cc, rc, F1) ← compileCond c F
     let (ct, F2) ← compileS t inLoop F1
     pure (.seq (.base cc) (.ifElse rc ct false (.base .nil)), F2)
-  | .whileS c b, _, F => do
-    let (cc, rc, F1) ← compileCond c F
+  | .loop cond b, _, F => do
+    -- compile_loop, no result register: no SetNull, the body is compiled with None
+    let (hdr, F1) ← compileHdr cond F
     let (cb, F2) ← compileS b true F1
-    pure (.loop (some (cc, rc, false)) cb, F2)
-  | .untilS c b, _, F => do
-    let (cc, rc, F1) ← compileCond c F
-    let (cb, F2) ← compileS b true F1
-    pure (.loop (some (cc, rc, true)) cb, F2)
-  | .loopS b, _, F => do
-    let (cb, F1) ← compileS b true F
-    pure (.loop none cb, F1)
+    pure (.loop hdr cb, F2)
   | .brk, inLoop, F => if inLoop then some (.brk, F) else none     -- InvalidLoopKeyword("break")
   | .cont, inLoop, F => if inLoop then some (.cont, F) else none   -- InvalidLoopKeyword("continue")
 
@@ -232,15 +231,28 @@ def LFlat.ofFlat : Flat → LFlat
   | .jumpIfTrue r k => .jumpIfTrue r k
   | .jump k => .jump k
 
+/-- number of instructions of a loop header: the condition and its exit jump; nothing for `loop` -/
+def hdrLen : Option (Code × Reg × Bool) → Nat
+  | none => 0
+  | some (cc, _, _) => (flatten cc).length + 1
+
 /-- number of instructions of the flattened code -/
 def sizeL : LCode → Nat
   | .base c => (flatten c).length
   | .seq a b => sizeL a + sizeL b
   | .ifElse _ t withJump e => 1 + sizeL t + (if withJump then 1 else 0) + sizeL e
-  | .loop (some (cc, _, _)) body => (flatten cc).length + 1 + sizeL body + 1
-  | .loop none body => sizeL body + 1
+  | .loop cond body => hdrLen cond + sizeL body + 1
   | .brk => 1
   | .cont => 1
+
+/-- the loop header: the condition's code and the exit jump over the body (`bodyLen` instructions)
+and the final `JumpBack`: `JumpIfFalse` for `while`, `JumpIfTrue` for `until` -/
+def flatHdr (cond : Option (Code × Reg × Bool)) (bodyLen : Nat) : List LFlat :=
+  match cond with
+  | none => []
+  | some (cc, r, neg) =>
+    (flatten cc).map LFlat.ofFlat
+      ++ [if neg then LFlat.jumpIfTrue r (bodyLen + 1) else LFlat.jumpIfFalse r (bodyLen + 1)]
 
 /-- `flatAux c pre post`: the instructions of `c`, where `pre` is the number of instructions between
 the start of the innermost enclosing loop and the start of `c`, and `post` the number of
@@ -255,13 +267,11 @@ def flatAux : LCode → Nat → Nat → List LFlat
   | .ifElse r t false e, pre, post =>
     .jumpIfFalse r (sizeL t) :: flatAux t (pre + 1) (sizeL e + post)
       ++ flatAux e (pre + 1 + sizeL t) post
-  | .loop (some (cc, r, neg)) body, _, _ =>
-    let n := (flatten cc).length
-    (flatten cc).map LFlat.ofFlat
-      ++ ((if neg then LFlat.jumpIfTrue r (sizeL body + 1) else LFlat.jumpIfFalse r (sizeL body + 1))
-          :: flatAux body (n + 1) 1)
-      ++ [.jumpBack (n + 1 + sizeL body + 1)]
-  | .loop none body, _, _ => flatAux body 0 1 ++ [.jumpBack (sizeL body + 1)]
+  | .loop cond body, _, _ =>
+    -- `continue` in the body goes back to the loop start (`hdrLen cond` instructions before the
+    -- body), `break` to the instruction after the final JumpBack (1 instruction after the body)
+    flatHdr cond (sizeL body) ++ flatAux body (hdrLen cond) 1
+      ++ [.jumpBack (hdrLen cond + sizeL body + 1)]
   | .brk, _, post => [.jump post]
   | .cont, pre, _ => [.jumpBack (pre + 1)]
 
